@@ -6,9 +6,16 @@
 
 #include "report.hpp"
 
+#include <cerrno>
+#include <csignal>
 #include <cstdio>
+#include <cstdlib>
 #include <cstring>
+#include <fcntl.h>
 #include <string>
+#include <sys/mman.h>
+#include <sys/stat.h>
+#include <unistd.h>
 
 static void put_hex(const char* key, const std::string& s)
 {
@@ -17,16 +24,117 @@ static void put_hex(const char* key, const std::string& s)
     std::printf("\n");
 }
 
+// ---- "process state left behind by earlier calls" (grid E of driver.cpp) ----------------------------------------------
+// C20_STATE names the state the process is put into immediately before each call of the functions under test:
+//   errno:<NAME>     errno assigned directly                    syscall:<NAME>  a really failing system call that sets it
+//   called-before    executable_path() was already called (twice; the results must be identical)
+//   cwd-root / cwd-deleted / umask-0777 / stdin-closed
+static const struct { const char* name; int value; } ERRNOS[] = {
+    {"0", 0}, {"ENOENT", ENOENT}, {"EINTR", EINTR}, {"ERANGE", ERANGE}, {"ENAMETOOLONG", ENAMETOOLONG},
+    {"EINVAL", EINVAL}, {"ENOMEM", ENOMEM}, {"EACCES", EACCES}, {"ELOOP", ELOOP}};
+
+static void on_usr1(int) {}
+
+[[noreturn]] static void state_error(const std::string& what)
+{
+    std::printf("state_error %s (errno=%d)\n", what.c_str(), errno);
+    std::fflush(stdout);
+    _exit(0);
+}
+
+static int failing_syscall(int want)
+{
+    char buf[64];
+    errno = 0;
+    switch (want)
+    {
+    case ENOENT: { struct stat st; (void) ::stat("/nonexistent-c20/x", &st); break; }
+    case EINTR:
+    {
+        struct sigaction sa;
+        std::memset(&sa, 0, sizeof sa);
+        sa.sa_handler = on_usr1;  // no SA_RESTART
+        sigemptyset(&sa.sa_mask);
+        ::sigaction(SIGUSR1, &sa, nullptr);
+        sigset_t block, old, none;
+        sigemptyset(&block);
+        sigaddset(&block, SIGUSR1);
+        ::sigprocmask(SIG_BLOCK, &block, &old);
+        ::raise(SIGUSR1);  // pending
+        none = old;
+        sigdelset(&none, SIGUSR1);
+        (void) ::sigsuspend(&none);  // handler runs, returns -1 / EINTR
+        int e = errno;
+        ::sigprocmask(SIG_SETMASK, &old, nullptr);
+        errno = e;
+        break;
+    }
+    case ERANGE: (void) !::getcwd(buf, 1); break;
+    case ENAMETOOLONG: { struct stat st; std::string n(6000, 'n'); (void) ::stat(n.c_str(), &st); break; }
+    case EINVAL: (void) !::readlink("/", buf, sizeof buf); break;  // not a symbolic link
+    case ENOMEM: (void) ::mmap(nullptr, std::size_t(1) << 62, PROT_READ, MAP_PRIVATE | MAP_ANONYMOUS, -1, 0); break;
+    case EACCES: { char* const av[] = {const_cast<char*>("passwd"), nullptr}; (void) ::execv("/etc/passwd", av); break; }  // no x bit: EACCES even for root
+    case ELOOP: { int fd = ::open("/proc/self/exe", O_RDONLY | O_NOFOLLOW); if (fd >= 0) ::close(fd); break; }
+    default: break;
+    }
+    return errno;
+}
+
+static bool g_once_done = false;
+
+static void enter_state(const std::string& st)
+{
+    if (st.empty() || st == "fresh" || st == "called-before") return;
+    if (st.compare(0, 6, "errno:") == 0 || st.compare(0, 8, "syscall:") == 0)
+    {
+        bool direct = st[0] == 'e';
+        std::string n = st.substr(direct ? 6 : 8);
+        for (auto& e : ERRNOS)
+            if (n == e.name)
+            {
+                if (direct) { errno = e.value; return; }
+                int got = failing_syscall(e.value);
+                if (got != e.value) state_error("the system call meant to fail with " + n + " left errno " + std::to_string(got));
+                return;
+            }
+        state_error("unknown errno name " + n);
+    }
+    if (g_once_done) return;
+    g_once_done = true;
+    if (st == "cwd-root") { if (::chdir("/") != 0) state_error("chdir /"); }
+    else if (st == "cwd-deleted")
+    {
+        const char* scratch = std::getenv("C20_SCRATCH");
+        if (!scratch) state_error("C20_SCRATCH not set");
+        std::string d = std::string(scratch) + "/.c20_gone";
+        if (::mkdir(d.c_str(), 0755) != 0 || ::chdir(d.c_str()) != 0 || ::rmdir(d.c_str()) != 0) state_error("cwd-deleted");
+    }
+    else if (st == "umask-0777") ::umask(0777);
+    else if (st == "stdin-closed") ::close(0);
+    else state_error("unknown state " + st);
+}
+
 int main()
 {
     (void) vf::take_asan();
+    const char* st_env = std::getenv("C20_STATE");
+    const std::string state = st_env ? st_env : "";
+    if (state == "called-before")
     {
+        std::string a = xtl::executable_path();
+        std::string b = xtl::executable_path();
+        put_hex("first", a);
+        std::printf("repeat_equal %d\n", a == b ? 1 : 0);
+    }
+    {
+        enter_state(state);
         std::string e = xtl::executable_path();
         int a = vf::take_asan() ? 1 : 0;
         put_hex("exe", e);
         std::printf("asan_exe %d\n", a);
     }
     {
+        enter_state(state);
         std::string p = xtl::prefix_path();
         int a = vf::take_asan() ? 1 : 0;
         put_hex("prefix", p);
